@@ -7,6 +7,7 @@ are mapped to properties by the checks.
 import gc
 import io
 import sys
+import threading
 
 import asynq
 import asynq.scheduler as _sched
@@ -33,9 +34,17 @@ from asynq.futures import FutureBase
 
 from .prog import HErr, HBaseErr, tok, compile_prog
 
-W = None  # the current world
+class _Cur(threading.local):
+    """the current world of this thread"""
+
+    w = None
+
+
+_cur = _Cur()
 
 KIND_RANK = {"a": 3, "b": 2, "c": 1}
+TASK_OWNER = {}  # THREADX: id(task) -> world that obtained it first (objects kept alive by the worlds)
+DBI_OWNER = {}
 
 from .prog import OPTION_NAMES
 _DEFAULTS = {n: getattr(_dbg.options, n) for n in OPTION_NAMES}
@@ -111,13 +120,15 @@ class HBatch(BatchBase):
         return self is other
 
     def _try_switch_active_batch(self):
-        w = W
+        w = _cur.w
         if w.active.get(self.kind) is self:
             w.serial += 1
             w.active[self.kind] = HBatch(self.kind, w.serial)
 
     def get_priority(self):
-        w = W
+        w = _cur.w
+        if w.baton is not None:
+            w.baton.point(w.tidx)
         if w.prio_mode == "default":
             return BatchBase.get_priority(self)
         if w.prio_mode == "equal":
@@ -127,7 +138,7 @@ class HBatch(BatchBase):
         return (1 if self.kind == top else 0, KIND_RANK[self.kind])
 
     def _flush(self):
-        w = W
+        w = _cur.w
         self.flush_entries += 1
         if self.flush_entries > 1:
             w.v("flush-twice", "flush body of %s#%d entered %d times" % (self.kind, self.serial, self.flush_entries))
@@ -137,6 +148,11 @@ class HBatch(BatchBase):
             w.v("flush-active", "batch %s#%d still the active batch inside its flush body" % (self.kind, self.serial))
         lids = tuple(it.glid for it in self.items)
         w.flushes.append((self.kind, lids, w.sched_flushing is self))
+        if w.baton is not None:
+            w.baton.point(w.tidx)
+            for it in self.items:
+                if it.owner is not w:
+                    w.v("foreign-item", "batch flushed by thread %d contains an item created by another thread" % (w.tidx,))
         if w.chk_ctx:
             w.check_contexts_at_flush(self)
         self.in_window = True
@@ -167,13 +183,14 @@ class HBatch(BatchBase):
 
 class HItem(BatchItemBase):
     def __init__(self, kind, lid, mode):
-        w = W
+        w = _cur.w
         b = w.active.get(kind)
         if b is None:
             w.serial += 1
             b = w.active[kind] = HBatch(kind, w.serial)
         BatchItemBase.__init__(self, b)
         self.kind = kind
+        self.owner = w
         self.lid = lid
         self.glid = lid + w.lid_base if lid >= 0 else lid - w.lid_base
         self.mode = mode
@@ -183,9 +200,9 @@ class HItem(BatchItemBase):
     def _oc(self, _):
         self.ncomputed += 1
         if self.ncomputed > 1:
-            W.v("item-computed-twice", "item %s computed %d times" % (self.lid, self.ncomputed))
+            _cur.w.v("item-computed-twice", "item %s computed %d times" % (self.lid, self.ncomputed))
         if not self.batch.in_window and not self.batch.is_flushed():
-            W.v("item-outside-flush", "item %s completed outside its batch's flush" % (self.lid,))
+            _cur.w.v("item-outside-flush", "item %s completed outside its batch's flush" % (self.lid,))
 
     def __str__(self):
         return "HItem(%s,%s)" % (self.kind, self.lid)
@@ -215,26 +232,26 @@ class HCtx(AsyncContext):
         self.rec = rec
 
     def resume(self):
-        W.ctx_event(self.rec, "r")
+        _cur.w.ctx_event(self.rec, "r")
 
     def pause(self):
-        W.ctx_event(self.rec, "p")
+        _cur.w.ctx_event(self.rec, "p")
 
 
 class HCtxPauseRaises(HCtx):
     # scheduler-driven pauses (not the one in __exit__) raise
     def pause(self):
-        W.ctx_event(self.rec, "p")
-        if not W.in_ctx_exit:
-            raise W.err(HErr, ("pause", self.rec.cid))
+        _cur.w.ctx_event(self.rec, "p")
+        if not _cur.w.in_ctx_exit:
+            raise _cur.w.err(HErr, ("pause", self.rec.cid))
 
 
 class HCtxResumeRaises(HCtx):
     # scheduler-driven resumes (not the one in __enter__) raise
     def resume(self):
-        W.ctx_event(self.rec, "r")
-        if not W.in_ctx_enter:
-            raise W.err(HErr, ("resume", self.rec.cid))
+        _cur.w.ctx_event(self.rec, "r")
+        if not _cur.w.in_ctx_enter:
+            raise _cur.w.err(HErr, ("resume", self.rec.cid))
 
 
 class HNonAsync(NonAsyncContext):
@@ -252,7 +269,7 @@ class HAttrTarget(object):
 
 class World(object):
     def __init__(self, prog, prefix=(), prio_mode="steer", conv="call", options=None, clock_step=1,
-                 chk_ctx=True, keep_scheduler=False, max_stack=None, inherit=None, lid_base=0):
+                 chk_ctx=True, keep_scheduler=False, max_stack=None, inherit=None, lid_base=0, threaded=False, baton=None, tidx=0):
         self.prog = prog
         self.flushmodes = prog.flushmodes
         self.prefix = prefix
@@ -264,6 +281,12 @@ class World(object):
         self.keep_scheduler = keep_scheduler
         self.max_stack = max_stack
         self.viol = []
+        self.threaded = threaded
+        self.baton = baton
+        self.tidx = tidx
+        self.thread_id = None
+        self.dbatch_log = []
+        self.prof = None
         self.active = {}
         self.serial = 0
         self.lid_base = lid_base
@@ -315,6 +338,12 @@ class World(object):
     def v(self, cat, msg):
         self.viol.append((cat, msg))
 
+    def pt(self):
+        """scheduling point (THREADX): the baton may hand the processor to another thread here"""
+        b = self.baton
+        if b is not None:
+            b.point(self.tidx)
+
     def err(self, cls, tag):
         e = cls(tag)
         self.errs.append(e)
@@ -323,6 +352,13 @@ class World(object):
     # ---------------------------------------------------------------------------- scheduler events
     def on_before(self, batch):
         self.before_log.append(batch)
+        if self.baton is not None:
+            self.baton.point(self.tidx)
+        if isinstance(batch, _batching.DebugBatch):
+            self.dbatch_log.append((batch.name, batch.index, tuple(repr(it._result) for it in batch.items)))
+            for it in batch.items:
+                if DBI_OWNER.get(id(it)) is not self:
+                    self.v("foreign-item", "DebugBatch %r flushed by thread %d contains an item created elsewhere" % (batch.name, self.tidx))
         if self.sched_flushing is not None and self.sched_flushing is not batch:
             pass  # nested scheduler flush from inside a flush body: not produced by the DSL
         self.sched_flushing = batch
@@ -358,6 +394,8 @@ class World(object):
 
     def on_after(self, batch):
         self.after_log.append(batch)
+        if self.baton is not None:
+            self.baton.point(self.tidx)
         if self.sched_flushing is not batch:
             self.v("events-bracket", "after-flush event for %s without matching before event" % batch)
         self.sched_flushing = None
@@ -384,12 +422,18 @@ class World(object):
             self.closing.add(tid)
             self.last_yield.pop(tid, None)
             return
-        if W is not self:
-            W.v("stale-task-ran", "a task body of an earlier computation (task %s) ran during a later computation" % (tid,))
+        if _cur.w is not self:
+            _cur.w.v("stale-task-ran", "a task body of an earlier computation (task %s) ran during a later computation" % (tid,))
         self.nsteps += 1
         self.transitions += 1
         n = self.steps.get(tid, 0) + 1
         self.steps[tid] = n
+        if self.baton is not None:
+            self.baton.point(self.tidx)
+            if _sched.get_scheduler() is not self.scheduler:
+                self.v("foreign-scheduler", "get_scheduler() inside task %s is not this thread's scheduler" % (tid,))
+            if threading.get_ident() != self.thread_id:
+                self.v("foreign-thread", "task %s of thread %d runs on another thread" % (tid, self.tidx))
         at = _sched.get_active_task()
         if sid is None:
             self.started_order.append(tid)
@@ -443,6 +487,8 @@ class World(object):
 
     def pre_yield(self, tc, sid, struct, leaves):
         tid = tc.tid
+        if self.baton is not None:
+            self.baton.point(self.tidx)
         if self.chain and self.chain[-1] == tid:
             self.chain.pop()
         else:
@@ -514,8 +560,16 @@ class World(object):
             return made[lf[2] % len(made)] if made else None
         elif op == "dd":
             r = self.dd_call(lf[2], lf[3], lf[4])
+        elif op == "dbi":
+            if self.baton is not None:
+                self.baton.point(self.tidx)
+            r = _batching.DebugBatchItem(lf[2], ("dbi", lf[1]))
+            DBI_OWNER[id(r)] = self
+            self.keep.append(r)
         else:
             raise ValueError(op)
+        if self.baton is not None:
+            self.baton.point(self.tidx)
         made.append(r)
         return r
 
@@ -555,6 +609,11 @@ class World(object):
         else:
             raise ValueError(sp)
         self.keep.append(t)
+        if self.baton is not None:
+            o = TASK_OWNER.get(id(t))
+            if o is not None and o is not self:
+                self.v("foreign-task", "deduplicated call %s(%s) on thread %d returned a task created by another thread" % (fn, key, self.tidx))
+            TASK_OWNER[id(t)] = self
         if in_flight and not from_inside:
             if t is not prev:
                 self.v("dedup-identity", "call %s(%s) [%s] while the same key is in flight returned a new task instead of the in-flight one" % (fn, key, sp))
@@ -578,8 +637,9 @@ class World(object):
 
     def dd_post(self):
         table = _tools.DeduplicateDecorator.tasks
+        me = threading.current_thread()
         for k, t in list(table.items()):
-            if t.is_computed():
+            if k[1] is me and t.is_computed():
                 self.v("dedup-table-residue", "deduplicate table still holds a completed task for key %r" % (k[0],))
         for rk, n in self.dd_runs.items():
             pass
@@ -652,6 +712,8 @@ class World(object):
         return rec
 
     def ctx_event(self, rec, ev):
+        if self.baton is not None:
+            self.baton.point(self.tidx)
         self.ctx_log.append((rec.cid, ev))
         self.transitions += 1
         if rec.kind == "N":
@@ -770,20 +832,23 @@ class World(object):
 
     # ---------------------------------------------------------------------------- run
     def run(self):
-        global W
-        W = self
-        for n, val in _DEFAULTS.items():
-            setattr(_dbg.options, n, val)
-        if self.options:
-            for n, val in self.options.items():
+        _cur.w = self
+        self.thread_id = threading.get_ident()
+        if not self.threaded:
+            # process-wide state: in THREADX runs the driver sets it once before the threads start
+            for n, val in _DEFAULTS.items():
                 setattr(_dbg.options, n, val)
-        if self.max_stack is not None:
-            _dbg.options.MAX_TASK_STACK_SIZE = self.max_stack
-        install_clock(Clock(self.clock_step))
+            if self.options:
+                for n, val in self.options.items():
+                    setattr(_dbg.options, n, val)
+            if self.max_stack is not None:
+                _dbg.options.MAX_TASK_STACK_SIZE = self.max_stack
+            install_clock(Clock(self.clock_step))
+            _tools.DeduplicateDecorator.tasks.clear()
         if not self.keep_scheduler:
             _sched.reset()
             _profiler.reset()
-        _tools.DeduplicateDecorator.tasks.clear()
+            _batching._debug_batch_state.batches.clear()
         sch = _sched.get_scheduler()
         self.scheduler = sch
         sch.on_before_batch_flush.subscribe(self.on_before)
@@ -824,6 +889,9 @@ class World(object):
                 pass
         self.waitstack.pop()
         self.outcome = out
+        if _dbg.options.COLLECT_PERF_STATS:
+            st = _profiler.flush()
+            self.prof = tuple(sorted(str(e.get("name")) for e in st))
         if out[0] == "err":
             rt = self.tasks.get(root.tid)
             if rt is not None and rt.is_computed() and rt._error is not self.exc:
@@ -881,11 +949,10 @@ class World(object):
         """detach the world: from here on nothing is judged.  The caller drops its reference and, if
         tasks were left unfinished, collects garbage at once so that their generators are closed now
         (with the monitors detached) and not at an arbitrary moment of a later execution."""
-        global W
         self.chk_ctx = False
         self.viol = []
-        if W is self:
-            W = NULLW
+        if _cur.w is self:
+            _cur.w = NULLW
 
 
 class _NullWorld(object):
@@ -905,6 +972,7 @@ class _NullWorld(object):
 
 
 NULLW = _NullWorld()
+_Cur.w = NULLW
 
 
 def _no_dict(s):
@@ -925,21 +993,21 @@ class SpySVOverride(_SVO):
     """the real override context; resume/pause additionally logged"""
 
     def resume(self):
-        W.ctx_event(self.rec, "r")
+        _cur.w.ctx_event(self.rec, "r")
         _SVO.resume(self)
 
     def pause(self):
-        W.ctx_event(self.rec, "p")
+        _cur.w.ctx_event(self.rec, "p")
         _SVO.pause(self)
 
 
 class SpyAttrOverride(async_override):
     def resume(self):
-        W.ctx_event(self.rec, "r")
+        _cur.w.ctx_event(self.rec, "r")
         async_override.resume(self)
 
     def pause(self):
-        W.ctx_event(self.rec, "p")
+        _cur.w.ctx_event(self.rec, "p")
         async_override.pause(self)
 
 
@@ -1022,7 +1090,7 @@ _DD_IDX = {("f", None): 0, ("g", None): 1, ("m", "x"): 2, ("m", "y"): 3, ("s", N
 
 def _dd_body(fn, host, key):
     """body shared by all deduplicated harness functions; behaviour chosen by the program"""
-    w = W
+    w = _cur.w
     rk = (fn, host, key)
     run = w.dd_runs.get(rk, 0) + 1
     w.dd_runs[rk] = run
@@ -1074,6 +1142,9 @@ class DDHost(object):
     def __init__(self, name):
         self.name = name
 
+    def __repr__(self):
+        return "DDHost(%s)" % self.name
+
     @_tools.deduplicate()
     @_asynq_deco()
     def m(self, key, mode=0):
@@ -1088,7 +1159,7 @@ class DDHost(object):
 
 @_asynq_deco()
 def htask(tc):
-    w = W
+    w = _cur.w
     w.step_begin(tc, None, None, None)
     rec, made = [], []
     try:
@@ -1101,7 +1172,7 @@ def htask(tc):
 @_asynq_deco()
 def hparent(tc):
     t = htask.asynq(tc)
-    W.register_task(tc.tid, t)
+    _cur.w.register_task(tc.tid, t)
     return (yield t)
 
 
